@@ -436,18 +436,18 @@ pub fn op_table() -> Vec<(&'static str, Vec<Vec<i64>>)> {
         ("make_layer_transparent", v(&[&[0], &[1], &[2], &[-1]])),
         ("update_layer_properties", v(&[&[0, 0], &[1, 1], &[1, 2], &[1, 3], &[2, 4], &[0, 5], &[1, 6], &[1, 7], &[3, 0]])),
         // area_operations.rs
-        ("justify_left", v(&[&[0], &[1], &[2]])),
-        ("center", v(&[&[0], &[1], &[2]])),
-        ("justify_right", v(&[&[0], &[1], &[2]])),
-        ("flip_x", v(&[&[0], &[1], &[2]])),
-        ("flip_y", v(&[&[0], &[1], &[2]])),
+        ("justify_left", v(&[&[0], &[1], &[2], &[-1]])),
+        ("center", v(&[&[0], &[1], &[2], &[-1]])),
+        ("justify_right", v(&[&[0], &[1], &[2], &[-1]])),
+        ("flip_x", v(&[&[0], &[1], &[2], &[-1]])),
+        ("flip_y", v(&[&[0], &[1], &[2], &[-1]])),
         ("crop", v(&[&[]])),
         ("crop_rect", v(&[&[1, 1, 5, 3], &[0, 0, 8, 5], &[-1, -1, 4, 4], &[6, 3, 6, 6], &[2, 2, 0, 0]])),
-        ("erase_selection", v(&[&[0], &[1]])),
-        ("scroll_area_up", v(&[&[0], &[1], &[2]])),
-        ("scroll_area_down", v(&[&[0], &[1], &[2]])),
-        ("scroll_area_left", v(&[&[0], &[1], &[2]])),
-        ("scroll_area_right", v(&[&[0], &[1], &[2]])),
+        ("erase_selection", v(&[&[0], &[1], &[-1]])),
+        ("scroll_area_up", v(&[&[0], &[1], &[2], &[-1]])),
+        ("scroll_area_down", v(&[&[0], &[1], &[2], &[-1]])),
+        ("scroll_area_left", v(&[&[0], &[1], &[2], &[-1]])),
+        ("scroll_area_right", v(&[&[0], &[1], &[2], &[-1]])),
         // selection_operations.rs
         ("set_selection", v(&[&[1, 1, 5, 3, 0], &[0, 0, 8, 5, 0], &[2, 0, 4, 5, 0], &[-2, -1, 3, 2, 0], &[1, 1, 5, 3, 1], &[3, 1, 6, 4, 2], &[0, 2, 8, 3, 3], &[6, 3, 12, 9, 0]])),
         ("clear_selection", v(&[&[]])),
